@@ -165,6 +165,22 @@ def make_rule(prop: str, rule_id: str, prefixes: list[str]):
                     conds.setdefault(id(node), []).append(txt)
                 elif k not in known:
                     new.setdefault(id(node), ([], [], node))[0].append(k)
+            # building the error message must not itself reject: a property read inside `raise X(f"...{self.p}...")` whose body asserts / raises
+            # replaces the documented exception by its own
+            for st_ in N.walk_no_nested_defs(f.node):
+                if not (isinstance(st_, ast.Raise) and st_.exc is not None):
+                    continue
+                for a_ in ast.walk(st_.exc):
+                    if not (isinstance(a_, ast.Attribute) and isinstance(a_.ctx, ast.Load)):
+                        continue
+                    owners = [m_ for c_ in ctx.index.classes.values() for n_, m_ in c_.methods.items() if n_ == a_.attr and m_.is_property]
+                    rejecting = [m_.qualname for m_ in owners if any(not k_ for k_, _, _ in rejection_atoms(m_.node))]
+                    reads_here = [k for k in ref.get("__message_reads__", {}).get(q, [])]
+                    if rejecting and a_.attr not in reads_here:
+                        ctx.violation(f, {"raise": X.U(st_.exc)[:100], "message_reads_property": a_.attr, "which_itself_rejects": rejecting[:2]},
+                                      "evaluating the message of a rejection cannot fail",
+                                      "when the property's own assertion fails (e.g. `grid_n` on an oblong grid) the caller gets that exception instead of the documented one",
+                                      node=st_, rule=rule_id)
             for nid, (syms, _, node) in new.items():
                 ctx.violation(f, {"new_rejection_condition": conds.get(nid, [X.U(node)[:120]])[:4], "tests_something_no_confirmed_condition_tests": sorted(set(syms)),
                                   "confirmed_subjects_of_this_function": sorted(known)[:12]},
@@ -193,7 +209,8 @@ SCOPES: dict[str, list[str]] = {
             f"{MD}.MazeDataset.as_tokens"],
     "C08": [f"{MD}.MazeDatasetFilters.", f"{MD}.register_maze_filter", f"{DS}.register_dataset_filter", f"{DS}.GPTDataset._apply_filters_from_config",
             f"{DS}._check_filter_equality", f"{MD}.MazeDataset.custom_maze_filter"],
-    "C09": [f"{LM}.LatticeMaze.__eq__", f"{LM}.LatticeMaze.__hash__", f"{LM}.SolvedMaze.__hash__", f"{MD}.MazeDataset.__eq__"],
+    "C09": [f"{LM}.LatticeMaze.__eq__", f"{LM}.LatticeMaze.__hash__", f"{LM}.SolvedMaze.__hash__", f"{MD}.MazeDataset.__eq__",
+            f"{LM}.TargetedLatticeMaze.__post_init__", f"{LM}.SolvedMaze.__init__"],
     "C10": [f"{LM}.LatticeMaze._as_pixels_bw", f"{LM}.LatticeMaze.as_pixels", f"{LM}.LatticeMaze._from_pixel_grid", f"{LM}.LatticeMaze.from_pixels",
             f"{LM}.LatticeMaze.as_ascii", f"{LM}.LatticeMaze._as_ascii_grid", f"{LM}.LatticeMaze.from_ascii", f"{LM}.detect_pixels_type"],
     "C11": [f"{DS}.GPTDataset.from_config", f"{DS}.GPTDataset.save", f"{DS}.GPTDataset.read"],
@@ -372,7 +389,9 @@ def make_narrowing_rule(prop: str, rule_id: str, prefixes: list[str]):
         from sa.callgraph import CallGraph
 
         cg = CallGraph(ctx.index)
-        entries = [q for q in sorted(ctx.index.functions) if any(q == p or q.startswith(p) for p in prefixes)]
+        # plus the functions every maze object passes through on its way to any consumer: the compact storage formats and the constructors
+        data_path = [f"{MD}.MazeDataset._serialize_minimal", f"{MD}.MazeDataset._load_minimal", f"{LM}.SolvedMaze.__init__", f"{LM}.TargetedLatticeMaze.__post_init__"]
+        entries = [q for q in sorted(ctx.index.functions) if any(q == p or q.startswith(p) for p in [*prefixes, *data_path])]
         closure = cg.closure(entries) if entries else []
         ref = reference().get("narrowing", {})
         n = 0
